@@ -1871,17 +1871,23 @@ class Node:
         if not usable_peers:
             raise NotRoutable("No connections is available to route to")
 
-        if len(usable_peers) > 1:
-            peer = self.peer_route_select_func(self, app, message, usable_peers)
-        else:
-            peer = usable_peers[0]
-            self.logger.debug(f"Selected only available peer {peer.connection} for app {app}")
-        conn = peer.connection
-        if conn is None or conn.state not in PEER_READY_STATES:
+        while True:
+            if len(usable_peers) > 1:
+                peer = self.peer_route_select_func(self, app, message, usable_peers)
+            else:
+                peer = usable_peers[0]
+                self.logger.debug(f"Selected only available peer {peer.connection} for app {app}")
+            conn = peer.connection
+            if conn is not None and conn.state in PEER_READY_STATES:
+                break
             # removed since the peers were looked at - or removed and dialled
             # again: the peer then has a new connection that has not completed
-            # its capabilities exchange
-            raise NotRoutable("The selected connection has gone away")
+            # its capabilities exchange. The other peers are as eligible as
+            # they were
+            remaining = [p for p in usable_peers if p is not peer]
+            if not remaining or len(remaining) == len(usable_peers):
+                raise NotRoutable("The selected connection has gone away")
+            usable_peers = remaining
 
         if not message.header.hop_by_hop_identifier:
             message.header.hop_by_hop_identifier = conn.hop_by_hop_seq.next_sequence()
